@@ -68,19 +68,23 @@ def expect_dtype(opname, dtype, result, where):
     elif opname in ("abs", "sqrt_abs"):
         arr(result, real, opname)
     elif opname in ("norm", "max", "min"):
-        got = str(np.asarray(result).dtype)
-        require(got == real, sig,
+        # scalars: only the kind is claimed (a real number), not the
+        # precision of a reduction's result
+        got = np.asarray(result).dtype
+        require(got.kind in "fiu", sig,
                 lambda: f"{opname} returned {got} for {dtype} data {where}")
     elif opname == "sum":
-        got = str(np.asarray(result).dtype)
-        require(got == dtype, sig, lambda: f"sum returned {got} {where}")
+        got = np.asarray(result).dtype
+        require(got.kind == ("c" if "complex" in dtype else "f"), sig,
+                lambda: f"sum returned {got} for {dtype} data {where}")
     elif opname == "to_dense":
         got = str(np.asarray(result).dtype)
         require(got == dtype, sig, lambda: f"to_dense gave {got} {where}")
     elif opname in ("item", "allclose_self", "trace"):
-        if opname == "trace" and hasattr(result, "dtype"):
-            got = str(np.asarray(result).dtype)
-            require(got == dtype, sig, lambda: f"trace gave {got} {where}")
+        if opname == "trace" and hasattr(result, "dtype") and \
+                "complex" in dtype:
+            got = np.asarray(result).dtype
+            require(got.kind == "c", sig, lambda: f"trace gave {got} {where}")
     elif opname == "multiply_diagonal":
         # the diagonal vector of the catalogue is float64: numpy promotion of
         # the two operand dtypes is the expected result type
@@ -90,9 +94,10 @@ def expect_dtype(opname, dtype, result, where):
             arr(y, dtype, opname)
         if not ops.arrays_in(result) and hasattr(result, "dtype") and \
                 opname in ("tensordot", "matmul", "einsum",
-                           "contract_with_conj"):
-            got = str(np.asarray(result).dtype)
-            require(got == dtype, sig, lambda: f"scalar result {got} {where}")
+                           "contract_with_conj") and "complex" in dtype:
+            got = np.asarray(result).dtype
+            require(got.kind == "c", sig,
+                    lambda: f"scalar result {got} {where}")
 
 
 def law_catalogue(ch):
